@@ -65,8 +65,10 @@ def gen_case(seed, cfg, index=0):
                 for _ in range(r.randint(1, 2)):
                     prog.append(call() if r.random() < 0.8 else ["get", None])
                 prog.append(["exit", b])
-            elif c < 0.58:
+            elif c < 0.52:
                 prog.append(call())
+            elif c < 0.58:
+                prog.append(["stack", r.randrange(2), r.randint(1, 2)])  # thread-local device / namespace stack wrappers
             elif c < 0.66:
                 prog.append(["get", r.choice(TRIO + ["nope", "nope"] + [b["name"] for f in fakes for b in f["backends"]])])
             elif c < 0.78:
@@ -101,7 +103,7 @@ def gen_case(seed, cfg, index=0):
 # ------------------------------------------------------------------------------------------------
 # worker side
 # ------------------------------------------------------------------------------------------------
-W = types.SimpleNamespace(table=None, x=None, r=None, back=None)
+W = types.SimpleNamespace(table=None, x=None, r=None, back=None, stacks=None)
 
 
 def worker_init(cfg):
@@ -118,6 +120,10 @@ def worker_init(cfg):
         for n in TRIO:
             W.table[(cid, n)] = _outcome(lambda: _do_call(cid, W.back[n]))
     seams.reset_world(0)
+    from einx._src.adapter.arrayapi.namespacestack import ArrayApiNamespaceStack
+    from einx._src.adapter.torch.devicestack import TorchDeviceStack
+
+    W.stacks = [(TorchDeviceStack(), "get_device"), (ArrayApiNamespaceStack(), "get_xp")]  # process-global instances, as in impl/torch.py and impl/arrayapi.py
     return {"einx": einx.__file__, "table": {f"{k[0]}|{k[1]}": v for k, v in W.table.items()}}
 
 
@@ -202,6 +208,8 @@ def real_op(world, op):
         return lambda: _outcome_obj(lambda: einx.backend.get(op[1]) if op[1] is not None else einx.backend.get(None, [W.x]))
     if kind == "gett":
         return lambda: _outcome_obj(lambda: reg.get(None, world.tensors(op[1])))
+    if kind == "stack":
+        return lambda: _stack_op(op[1], op[2])
     if kind == "import":
         def imp():
             sys.modules[world.mods[op[1]]] = types.ModuleType(world.mods[op[1]])
@@ -213,6 +221,34 @@ def real_op(world, op):
     if kind == "reg":
         return lambda: _outcome_ok(lambda: reg.register(world.eager[(op[1], op[2])]))
     raise ValueError(op)
+
+
+def _stack_op(which, depth):
+    """A stub inner operation wrapped by the (process-global) thread-local stack: while it runs, the
+    top of the stack must be the entry derived from this thread's own tensors, whatever other threads do."""
+    import einx._src.tracer as tracer
+    from einx._src.tracer.graph import depends_on
+
+    ds, getter = W.stacks[which]
+    seen = []
+
+    def level(d):
+        t = tracer.signature.classical.Tensor(None, shape=(2,))
+
+        def stub(*tensors, out, **kw):
+            if d > 1:
+                level(d - 1)
+            top = getattr(ds, getter)()
+            seen.append(bool(depends_on(top, t)))
+
+        stub.__name__ = "stub"
+        ds.namedtensor.op(stub)(types.SimpleNamespace(value=t), out=None)
+
+    try:
+        level(depth)
+    except Exception as e:
+        return ["exc", type(e).__name__]
+    return ["own"] if all(seen) and len(seen) == depth else ["foreign", seen]
 
 
 def _outcome_ok(f):
@@ -272,6 +308,8 @@ def make_spec(world):
             elif kind == "gett":
                 st2, b = st.get(None, world.tensors(op[1]))
                 out = ["obj", b.name]
+            elif kind == "stack":
+                st2, out = st, ["own"]  # thread-local by contract: independent of everything else
             elif kind == "import":
                 st2, out = st, ["ok"]
                 imported = imported | {world.mods[op[1]]}
@@ -334,7 +372,8 @@ def exec_case(case, cfg):
     else:
         policy = sched.ReplayPolicy(pol["switches"])
     opcode_files = ("frontend/backend.py", "tracer/graph.py", "util/lru_cache.py") if case.get("opcode") else ()
-    s = sched.Scheduler(policy, seams.einx_dir(), opcode_files=opcode_files, step_cap=cfg.get("step_cap", 2_000_000))
+    s = sched.Scheduler(policy, seams.einx_dir(), opcode_files=opcode_files, step_cap=cfg.get("step_cap", 2_000_000),
+                        hot=("frontend/backend.py", "tracer/graph.py", "util/lru_cache.py", "frontend/api.py", "adapter/torch/devicestack.py", "adapter/arrayapi/namespacestack.py"))
     ops_by = {}
     programs = []
     for t, prog in enumerate(case["threads"]):
@@ -360,7 +399,8 @@ def exec_case(case, cfg):
               "switch_inside_cache_wrapper": s.preempt_where.get("func_frozen", 0) + s.preempt_where.get("_freeze_value", 0),
               "switch_inside_api_inner": s.preempt_where.get("inner", 0) + s.preempt_where.get("_construct_graph", 0) + s.preempt_where.get("_to_tracer", 0),
               "switch_inside_dependon": s.preempt_where.get("__enter__", 0) + s.preempt_where.get("__exit__", 0),
-              "overlapping_with_blocks": 0, "concurrent_cold_compile_same_call": 0}
+              "overlapping_with_blocks": 0, "concurrent_cold_compile_same_call": 0,
+              "switch_inside_device_or_namespace_stack": s.preempt_where.get("_enter", 0) + s.preempt_where.get("_get_stack", 0) + s.preempt_where.get("get_device", 0) + s.preempt_where.get("get_xp", 0)}
     log = {"seed": case["seed"], "threads": case["threads"], "events": [[e["thread"], e["idx"], e["inv"], e["ret"], e["out"]] for e in sorted(events, key=lambda e: e["inv"])],
            "switches": [[a, b, c] for a, b, c, _ in s.switches], "final": final_real, "aborted": s.aborted}
     res = {"stats": stats, "faults": faults, "probes": probes, "switches": [[a, b, c] for a, b, c, _ in s.switches],
@@ -487,7 +527,7 @@ ASSUMPTIONS = [
     "switches inside sympy, numpy, C code (functools.cache internals) and util/solver.py are not explored (and are outside the property's quantifier)",
     "the single-threaded outcome table (menu call x numpy backend) is the reference for CALL outcomes; BackendRegistryState stepped sequentially is the reference for the registry",
     "overlapping with-blocks of different threads may fail in the sequential specification too (process-global stack by design); such outcomes have a witness and are not flagged",
-    "torch device stack / array-api namespace stack wrappers need their frameworks and are not exercised",
+    "torch device stack / array-api namespace stack wrappers are exercised with a stub inner operation (no torch / array_api_compat installed)",
 ]
 
 
